@@ -50,7 +50,7 @@ Definition check_C02 (line : list Z) : list Z :=
       if negb (valid_T n1 n2 tnil T) then verdict V_MALFORMED 0 (-2) [] else
       let tag := tag02 n1 n2 tnil T in
       if negb (status =? 0) then verdict V_MISMATCH tag (-1) [4; status] else
-      let tbl := mass_table n1 n2 T in
+      let tbl := dist_table n1 n2 T in
       let cs := cumsum 0 tbl in
       let tot := choosen (n1 + n2) n1 in
       match cmp_us n1 n2 T tbl cs tot us 0 with
